@@ -71,8 +71,9 @@ def run_kinds(shard, res):
     c = list(alg.canon2bin.values())
     n = len(c)
     # non-commuting multivector operands
-    X = alg.multivector(keys=(c[1], c[n - 2]), values=[F(2), F(3)])
-    Y = alg.multivector(keys=(c[2], c[n - 2], c[0]), values=[F(5), F(-1), F(1, 2)])
+    hi = c[n - 2] if n > 4 else c[n - 1]          # keys must be distinct also in two dimensions
+    X = alg.multivector(keys=(c[1], hi), values=[F(2), F(3)])
+    Y = alg.multivector(keys=(c[2], hi, c[0]), values=[F(5), F(-1), F(1, 2)])
     Z = alg.multivector(keys=(c[0], c[n - 1]), values=[F(3), F(7)])
     kinds = {
         'int': lambda: 3, 'float': lambda: 2.5, 'Fraction': lambda: F(7, 2), 'np.float64': lambda: np.float64(1.5), 'np0d': lambda: np.array(2.0),
@@ -188,7 +189,8 @@ def run_bcast(shard, res):
     c = list(alg.canon2bin.values())
     n = len(c)
     shape = tuple(shard['shape'])
-    kx, ky = (c[1], c[n - 2], c[0]), (c[2], c[n - 2])
+    hi = c[n - 2] if n > 4 else c[n - 1]
+    kx, ky = (c[1], hi, c[0]), (c[2], hi)
     rng = np.arange(1, 1 + len(kx) * int(np.prod(shape)), dtype=float).reshape((len(kx),) + shape)
     ax = 1.0 + rng / 7.0
     ay = 2.0 - np.arange(1, 1 + len(ky) * int(np.prod(shape)), dtype=float).reshape((len(ky),) + shape) / 5.0
@@ -253,7 +255,7 @@ def run_setitem(shard, res):
     c = list(alg.canon2bin.values())
     n = len(c)
     shape = tuple(shard['shape'])
-    kx = (c[1], c[n - 2], c[0])
+    kx = (c[1], c[n - 2] if n > 4 else c[n - 1], c[0])
     base = np.arange(1, 1 + len(kx) * int(np.prod(shape)), dtype=float).reshape((len(kx),) + shape)
     case = {'shard': shard}
     for ix in index_exprs(shape):
